@@ -89,6 +89,12 @@ CHECKS["C03"] = dict(
    text="The complete product {offerer media item (kind x direction x addTrack/addTransceiver x codec preferences) | none (thorough: two items)} x data channel x bundle policy x answerer pre-created transceivers {none, audio, video, both} x with/without track x data channel x bundle policy (4 842 quick / 120 078 thorough configurations) plus four follow-up rounds (add the other kind, add a transceiver of the same kind, add a data channel, swap the offering side) is pushed through the real offer/answer code; oracle: no call raises, both stable, answer mirrors the offer's sections/BUNDLE/codecs/payload types/RTX pairing/rtcp-fb/header-extension ids, definite DTLS role, complementary directions, and the session connects: both connected, negotiated channels open, a message per channel delivered.",
    note="aioice replaced by a fake connection that pairs like ICE; tracks never yield media; one open known finding (idle un-negotiated transport keeps connectionState at 'connecting').",
    design="2/C03")
+CHECKS["C09"] = dict(
+   level="model_checking",
+   technique="bounded-exhaustive enumeration: every description generated over the C03 configuration product (compared with the live objects that produced it), a product of constructed descriptions, all single-line edits of those texts, and the full product of candidate-line shapes, through the real parser and serialiser",
+   text="(a) every createOffer/createAnswer/localDescription text over the C03 quick product with follow-up rounds is a fixed point of parse-then-serialise and its parsed fields equal the live transceivers/senders/ICE gatherers/DTLS/SCTP objects at generation time; (b) constructed SessionDescription objects over present/absent x 2-3 values of every optional attribute and 1-3 sections are field-equal after a round trip; (c) every single line deletion, duplication and adjacent swap of those texts that the parser accepts is idempotent under one more round; (d) 103 680 candidate lines round-trip exactly, also through the signalling helpers.",
+   note="Texts rejected by the parser with an exception are out of scope here (C05); attribute values from 2-3 listed values each.",
+   design="2/C09")
 NOT_YET = {}
 
 def main():
